@@ -213,6 +213,28 @@ def c06_search(rng, budget):
                     elif gots is None or abs(gots - wants) > max(abs(wants), abs(sa), abs(sb) if op in '+-' else 0) * F(1, 10 ** 9):
                         cls = 'D6' if is_d6(op, ka, kb) else 'si'
                         out.append(dict(what=f'({a!r}) {op} ({b!r}) = {r!r}: SI magnitude {float(gots) if gots is not None else None!r}, expected {float(wants)!r}' + note, case=case, cls=cls))
+                # the number on the LEFT: number * quantity is the quantity's kind; number + / - / divided-by quantity is no operation of
+                # the dimensional table (Python reaches the quantity's reflected method, if the class has one)
+                if ub is None:
+                    for op in '+-*/':
+                        n += 1
+                        try:
+                            r = {'+': lambda: b + a, '-': lambda: b - a, '*': lambda: b * a, '/': lambda: b / a}[op]()
+                        except (TypeError, ValueError, ZeroDivisionError):
+                            continue
+                        except Exception as e:  # noqa
+                            out.append(dict(what=f'({b!r}) {op} ({a!r}) raised {type(e).__name__}', case=dict(op=op, a=[kb, vb, None], b=[ka, va, ua]), cls='raises'))
+                            continue
+                        case = dict(op=op, a=[kb, vb, None], b=[ka, va, ua], number_on_the_left=True)
+                        if op != '*':
+                            out.append(dict(what=f'({b!r}) {op} ({a!r}) returned {r!r}; dimensional analysis gives no such operation (TypeError expected)', case=case, cls='kind'))
+                            continue
+                        gotk = type(r).__name__
+                        gots = S.si(gotk, r.value, r.unit) if isinstance(r, U.UnitBase) and gotk in S.KINDS and r.unit in S.units(gotk) else None
+                        if gotk != ka:
+                            out.append(dict(what=f'({b!r}) * ({a!r}) is a {gotk}, dimensional analysis dictates {ka}', case=case, cls='kind'))
+                        elif gots is None or abs(gots - sa * sb) > abs(sa * sb) * F(1, 10 ** 9):
+                            out.append(dict(what=f'({b!r}) * ({a!r}) = {r!r}: SI magnitude {float(gots) if gots is not None else None!r}, expected {float(sa * sb)!r}', case=case, cls='si'))
                 # inverse laws
                 if ub is not None and S.base(ka) == S.base(kb):
                     n += 1
